@@ -54,7 +54,8 @@ CHECK_DEADLOCK FALSE
     for m in tot.get("mismatches", []):
         f = m.get("field", "")
         is_mine = any(f.startswith(x) or x in f for x in mine)
-        key = f.split("(")[0].split(":")[-1] if is_mine else f
+        # one example per (query, aspect): "filter_edges(...): bidirectional [..]" -> "filter_edges: bidirectional [..]"
+        key = (f.split("(")[0].strip() + ":" + f.split(":")[-1]) if is_mine else f
         if not is_mine:
             other += 1
             continue
@@ -62,7 +63,7 @@ CHECK_DEADLOCK FALSE
             continue
         seen.add(key)
         v.add_violation(f"{f}: expected {str(m.get('expected'))[:300]} got {str(m.get('got'))[:300]} after calls {json.dumps(m.get('calls'))[:300]}",
-                        m, {"suite": "gates", "field": key})
+                        m, {"suite": "gates", "field": key, "bidirectional_answers_at_node_level": "[answers at node level" in f})
     if other:
         v.cov["mismatches_of_sibling_property"] = v.cov.get("mismatches_of_sibling_property", 0) + other
         log(f"[{prop}] note: {other} mismatch example(s) concern the sibling property (C08 <-> C19) and are reported by its check")
